@@ -142,6 +142,8 @@ struct Run {
     /// `post_start` returned ok
     mon_pairs: Vec<(usize, usize)>,
     past_start: std::collections::HashSet<usize>,
+    /// replaying corpus files: cycle-closing links are executed as recorded
+    allow_cycles: bool,
 }
 
 impl Run {
@@ -166,9 +168,12 @@ impl Run {
             Op::Monitor(m, a, _) => {
                 self.w.monitors_enabled() && *a < n && *m < n && a != m && self.w.me(*m).is_some() && self.w.me(*a).is_some()
             }
-            // (a link that would close a supervision cycle is issued too: the code refuses it since the repo
-            // fix `fix: link() refuses a link that would close a supervision cycle`)
-            Op::Link(a, p) => *a < n && *p < n && self.w.me(*p).is_some(),
+            // a link that would close a supervision cycle is never generated (known finding F15: the code
+            // accepts it and then loses the terminal event of an actor exiting on the cycle); the corpus
+            // witness corpus/C04/e-lts-link-cycle.ops (replayed with `allow_cycles`) does close one
+            Op::Link(a, p) => {
+                *a < n && *p < n && self.w.me(*p).is_some() && (self.allow_cycles || (a != p && !self.w.would_cycle(*a, *p)))
+            }
             Op::Wait(_, a) | Op::Call(_, a) => *a < n,
             Op::PollWait(_) | Op::PollCall(_) => true,
             Op::PollSpawn(a) | Op::DropSpawn(a) | Op::Poll(a) | Op::Abort(a) | Op::Resume(a, _) => *a < n,
@@ -1143,6 +1148,7 @@ fn main() {
             reserved: None,
             mon_pairs: Vec::new(),
             past_start: Default::default(),
+            allow_cycles: false,
         };
         if local == 2 {
             run.w.use_thread_local_adapter();
@@ -1151,6 +1157,7 @@ fn main() {
             run.w.use_thread_local();
         }
         // 1. corpus (minimised past failures, finding witnesses)
+        run.allow_cycles = true;
         for f in corpus.split(',').filter(|f| !f.is_empty()) {
             let txt = std::fs::read_to_string(f).unwrap_or_default();
             for line in txt.lines() {
@@ -1165,6 +1172,7 @@ fn main() {
             }
             run.stats.bump("corpus.files");
         }
+        run.allow_cycles = false;
         // 2. exhaustive arrival-point sweep
         let mut id = 1_000_000;
         if do_sweep {
